@@ -50,6 +50,7 @@ func EndBlocker(ctx sdk.Context, k keeper.Keeper) {
 		}
 
 		k.CleanBatch(ctx, requestContext, requestContextID)
+		endBlockHook(ctx, "expire", requestContextID)
 	}
 
 	providerRequests := make(map[string][]string)
@@ -110,10 +111,12 @@ func EndBlocker(ctx sdk.Context, k keeper.Keeper) {
 		}
 
 		k.DeleteNewRequestBatch(ctx, requestContextID, ctx.BlockHeight())
+		endBlockHook(ctx, "start", requestContextID)
 	}
 
 	// handle the expired request batch queue
 	k.IterateExpiredRequestBatch(ctx, ctx.BlockHeight(), expiredRequestBatchHandler)
+	endBlockHook(ctx, "mid", nil)
 
 	// handle the new request batch queue
 	k.IterateNewRequestBatch(ctx, ctx.BlockHeight(), newRequestBatchHandler)
